@@ -549,8 +549,55 @@ fn string_values() -> Vec<String> {
     v
 }
 
-fn directed_templates() -> Vec<Directed> {
+/// arrays of 21..=200 elements (std's sort changes strategy above 20) mixing what an order has
+/// to cope with: NaN of both signs, signed zeros, infinities, integers of every encoding,
+/// strings, none, nested arrays and maps
+fn sort_arrays(rng: &mut Rng, n_arrays: usize) -> Vec<String> {
+    let floats = ["f:7ff8000000000000", "f:fff8000000000000", "f:0000000000000000", "f:8000000000000000", "f:7ff0000000000000", "f:fff0000000000000",
+        "f:3ff0000000000000", "f:bff0000000000000", "f:4000000000000000", "f:3fe0000000000000", "f:43e0000000000000", "f:c3e0000000000000", "f:0000000000000001", "f:7fefffffffffffff"];
+    let ints = ["i64:0", "i64:1", "i64:-1", "u64:1", "u64:0", "i128:1", "u128:1", "i64:9223372036854775807", "u64:9223372036854775808", "i128:-170141183460469231731687303715884105728",
+        "u128:340282366920938463463374607431768211455", "i64:2", "u64:18446744073709551615", "i128:9223372036854775808"];
+    let others = ["s:61", "s:62", "s:", "S:61", "s:c3a9", "N", "B1", "B0", "A2 i64:1 f:7ff8000000000000", "A0x", "M1 s:6b i64:1", "M1 s:6b f:7ff8000000000000", "y:61", "A1 i64:2"];
     let mut out = Vec::new();
+    for k in 0..n_arrays {
+        let n = *rng.pick(&[21usize, 22, 25, 33, 64, 100, 200]);
+        let pool: Vec<&str> = match k % 5 {
+            0 => floats.to_vec(),
+            1 => floats.iter().chain(ints.iter()).copied().collect(),
+            2 => floats.iter().chain(ints.iter()).chain(others.iter()).copied().filter(|x| *x != "A0x").collect(),
+            3 => ints.to_vec(),
+            _ => floats.iter().copied().chain(["N", "s:61"].iter().copied()).collect(),
+        };
+        let elems: Vec<String> = (0..n)
+            .map(|_| {
+                // NaN often, so that it sits between ordinary floats
+                if k % 5 != 3 && rng.chance(1, 5) { (*rng.pick(&["f:7ff8000000000000", "f:fff8000000000000"])).to_string() } else { (*rng.pick(&pool)).to_string() }
+            })
+            .collect();
+        out.push(format!("A{n} {}", elems.join(" ")));
+        // the same as the attribute `k` of maps
+        out.push(format!("A{n} {}", elems.iter().map(|e| format!("M2 s:6b {e} s:6c i64:1")).collect::<Vec<_>>().join(" ")));
+        // and as the values of a map with many keys (key order, iteration)
+        out.push(format!("M{n} {}", elems.iter().enumerate().map(|(i, e)| format!("i64:{} {e}", i as i64 - 10)).collect::<Vec<_>>().join(" ")));
+    }
+    out
+}
+
+fn directed_templates(rng: &mut Rng, quick: bool) -> Vec<Directed> {
+    let mut out = Vec::new();
+    let sorts: &[&str] = &[
+        "{{ a | sort | length }}", "{{ a | sort }}", "{{ a | unique | length }}", "{{ a | sort(attribute=\"k\") | length }}", "{{ a | unique(attribute=\"k\") | length }}",
+        "{{ a | group_by(attribute=\"k\") | length }}", "{{ a | reverse | sort | first }}{{ a | sort | last }}", "{% for x in a | sort %}{{ loop.index }}{% endfor %}",
+        "{{ a | values | sort | length }}{{ a | keys | sort | length }}{{ a | pairs | length }}", "{% for k, v in a %}{{ k }}{% endfor %}{{ a | length }}",
+        "{{ [a, a] | sort | length }}{{ a == a }}{{ a < a }}", "{{ a | sort(attribute=\"l\") | length }}{{ a | map_missing_ok | default(value=1) }}",
+    ];
+    let arrays = sort_arrays(rng, if quick { 12 } else { 120 });
+    for t in sorts {
+        if t.contains("map_missing_ok") {
+            continue;
+        }
+        out.push(Directed { group: "sort", body: t.to_string(), values: arrays.clone() });
+    }
     let ints: &[&str] = &[
         // slices: start / stop / step from the context
         "{{ c.b[1::a] }}", "{{ c.b[-2::a] }}", "{{ c.c[2::a] }}", "{{ c.b[a:] }}", "{{ c.b[:a] }}", "{{ c.b[a:b] }}", "{{ c.b[a:b:a] }}",
@@ -1039,7 +1086,7 @@ fn main() {
 
     // ---- 3b. directed streams: 128-bit extremes at every integer operand, spreads of odd maps
     {
-        let dirs = directed_templates();
+        let dirs = directed_templates(&mut rng, env.quick());
         let mut templates = vec![directed_helpers()];
         let mut items = Vec::new();
         let container = CONTAINER.to_string();
@@ -1049,9 +1096,9 @@ fn main() {
             templates.push((name.clone(), d.body.clone()));
             let mut ctxs: Vec<Vec<String>> = Vec::new();
             for a in &d.values {
-                let n_b = env.budget(4, d.values.len());
+                let n_b = if d.group == "sort" { 1 } else { env.budget(4, d.values.len()) };
                 for j in 0..n_b {
-                    let b: &str = if env.quick() {
+                    let b: &str = if env.quick() || d.group == "sort" {
                         match j { 0 => "i64:1", 1 => &d.values[0], _ => &d.values[rng.below(d.values.len())] }
                     } else {
                         &d.values[j]
@@ -1214,6 +1261,82 @@ fn main() {
         }
     }
 
+    // ---- 3e. a rejected batch that names a template twice must leave nothing of itself behind
+    {
+        let bad_first: [(&str, &str); 4] = [
+            ("unknown-filter", "{{ 1 | zz_missing }}"),
+            ("unknown-test", "{% if 1 is zz_missing %}x{% endif %}"),
+            ("unknown-function", "{{ zz_missing() }}"),
+            ("unknown-component", "{{ <zz_missing/> }}"),
+        ];
+        let failures: [(&str, &str); 5] = [
+            ("later-syntax-error", "{% if %}"),
+            ("later-unknown-filter", "{{ 1 | zz_other }}"),
+            ("later-unknown-include", "{% include \"zz_nowhere\" %}"),
+            ("later-unknown-parent", "{% extends \"zz_nowhere\" %}"),
+            ("none-but-first-is-bad", ""),
+        ];
+        for pre_existing in [false, true] {
+            for (bk, bad) in bad_first {
+                for (fk, failing) in failures {
+                    for second_good in [true, false] {
+                        report.evaluations += 1;
+                        report.oracle_checks += 1;
+                        let what = format!("duplicate-name batch: first `x` {bk}, second `x` {}, {fk}, {}", if second_good { "valid" } else { "also bad" }, if pre_existing { "`x` registered before" } else { "`x` new" });
+                        let mut batch: Vec<(String, String)> = vec![("x".into(), bad.to_string()), ("x".into(), if second_good { "second".to_string() } else { bad.to_string() })];
+                        if !failing.is_empty() {
+                            batch.push(("y".into(), failing.to_string()));
+                        } else if second_good {
+                            // nothing makes this batch fail: the last `x` wins and is valid
+                        }
+                        let outcome = catch(std::panic::AssertUnwindSafe(|| {
+                            let mut t = Tera::default();
+                            if pre_existing {
+                                t.add_raw_templates(vec![("x", "before"), ("z", "zed")]).map_err(|e| e.to_string())?;
+                            } else {
+                                t.add_raw_templates(vec![("z", "zed")]).map_err(|e| e.to_string())?;
+                            }
+                            let snapshot = |t: &Tera| -> Vec<String> {
+                                let mut names: Vec<String> = t.get_template_names().map(|s| s.to_string()).collect();
+                                names.sort();
+                                names.into_iter().map(|n| { let (class, detail, problem) = observe(t, &n, &Mode::Render, &Context::new()); format!("{n}: {class} {detail}{}", problem.map(|p| format!(" !! {p}")).unwrap_or_default()) }).collect()
+                            };
+                            let before = snapshot(&t);
+                            let r = t.add_raw_templates(batch.iter().map(|(n, s)| (n.as_str(), s.as_str())));
+                            let after = snapshot(&t);
+                            Ok::<_, String>((r.is_ok(), before, after))
+                        }));
+                        let replay = serde_json::json!({"templates": if pre_existing { vec![("x", "before"), ("z", "zed")] } else { vec![("z", "zed")] }, "then": batch, "detail": {"history": what}});
+                        match outcome {
+                            Err(p) => {
+                                report.oracle_failures += 1;
+                                report.violation("property", format!("{what}: panic {p}"), replay);
+                            }
+                            Ok(Err(e)) => report.notes.push(format!("{what}: setup failed: {e}")),
+                            Ok(Ok((accepted, before, after))) => {
+                                let bad_render = after.iter().find(|l| l.contains(": panic") || l.contains(" !! "));
+                                if let Some(b) = bad_render {
+                                    report.oracle_failures += 1;
+                                    if report.violations.iter().filter(|v| v.summary.starts_with("duplicate-name")).count() < 3 {
+                                        report.violation("property", format!("{what}: the batch is {} and afterwards rendering gives `{b}`", if accepted { "accepted" } else { "rejected" }), replay);
+                                    }
+                                } else if !accepted && before != after {
+                                    // a rejected batch must not change what is registered (also C10)
+                                    report.oracle_failures += 1;
+                                    if report.violations.iter().filter(|v| v.summary.starts_with("duplicate-name")).count() < 3 {
+                                        report.violation("property", format!("{what}: the batch is rejected but the registry changed: before {before:?}, after {after:?}"), replay);
+                                    }
+                                } else {
+                                    report.count(if accepted { "history.duplicate_batch.accepted_and_sound" } else { "history.duplicate_batch.rejected_and_rolled_back" });
+                                }
+                            }
+                        }
+                    }
+                }
+            }
+        }
+    }
+
     // ---- 3d. histories: the provider of a referenced item is registered again without it
     for (what, providers, users, without, render) in history_sets() {
         report.evaluations += 1;
@@ -1361,6 +1484,59 @@ fn main() {
                     }
                     None => report.notes.push(format!("{id}: rendering returned normally; the finding no longer reproduces")),
                 }
+            }
+        }
+    }
+    // component -> include -> the same component: the recursion limit has to hold across includes
+    {
+        let unbounded = vec![
+            ("rc.html".to_string(), "{% component rec() %}r{% include \"ri.html\" %}{% endcomponent rec %}".to_string()),
+            ("ri.html".to_string(), "{{ <rec/> }}".to_string()),
+            ("rm.html".to_string(), "{{ <rec/> }}".to_string()),
+        ];
+        let bounded = |n: usize| vec![
+            ("bc.html".to_string(), "{% component cnt(n) %}{{ n }}{% if n > 0 %}{% include \"bi.html\" %}{% endif %}{% endcomponent cnt %}".to_string()),
+            ("bi.html".to_string(), "{{ <cnt n={n - 1}/> }}".to_string()),
+            ("bm.html".to_string(), format!("{{{{ <cnt n={{{n}}}/> }}}}")),
+        ];
+        // (what, set, render, expected class)
+        let mut probes: Vec<(String, Vec<(String, String)>, &str, &str)> = vec![("component-include recursion, unbounded".into(), unbounded, "rm.html", "err")];
+        for n in [5usize, 15, 19] {
+            probes.push((format!("component-include recursion, {} levels", n + 1), bounded(n), "bm.html", "ok"));
+        }
+        for n in [20usize, 21, 22, 24, 40] {
+            probes.push((format!("component-include recursion, {} levels", n + 1), bounded(n), "bm.html", "err"));
+        }
+        for (what, set, render, expected) in probes {
+            report.evaluations += 1;
+            report.oracle_checks += 1;
+            match build(&set) {
+                Err(e) => {
+                    report.notes.push(format!("{what}: the set is refused at registration ({})", e.lines().next().unwrap_or("")));
+                    continue;
+                }
+                Ok(_) => {}
+            }
+            let b = Batch { common: serde_json::json!({"templates": set, "limit_secs": 30}), items: vec![set_item(render, &[["-".to_string(), "-".to_string(), "-".to_string()]])] };
+            let r = run_batch(CHILD_FLAG, 605_000, &b, std::time::Duration::from_secs(90), 0);
+            let crashed = r.culprits.first().map(|c| c.1.clone());
+            let counts: Vec<u64> = r.results.iter().flat_map(|(_, ls)| ls.iter()).find_map(|l| l.strip_prefix("S ").map(|st| st.split(' ').filter_map(|x| x.parse().ok()).collect())).unwrap_or_default();
+            let got = match (&crashed, counts.as_slice()) {
+                (Some(c), _) => format!("no answer ({c})"),
+                (None, [1, 0, 0]) => "ok".to_string(),
+                (None, [0, 1, 0]) => "err".to_string(),
+                (None, [0, 0, 1]) => "panic".to_string(),
+                _ => "unknown".to_string(),
+            };
+            if got == expected {
+                report.count(&format!("depth.component_include.{expected}_as_required"));
+            } else {
+                report.oracle_failures += 1;
+                report.violation(
+                    "property",
+                    format!("{what}: rendering `{render}` gives {got}; the component recursion limit (20) requires {}", if expected == "err" { "an error value" } else { "text" }),
+                    serde_json::json!({"templates": set, "render": render, "mode": "render", "context": ["-", "-", "-"], "detail": {"got": got, "expected": expected}}),
+                );
             }
         }
     }
